@@ -167,6 +167,41 @@ Definition Sample (pr : params) (logits : list sf) (r : sf) : res :=
   | _ => sample pr (enumerate 0 logits) r
   end.
 
+(** ** Sampler.Sample with a grammar.  [rej i] = the grammar (in its current state) rejects token id i: grammar.Apply
+    sets the value of a rejected token to -Inf and leaves the others alone (an oracle; the check uses the real llama.cpp
+    grammar sampler).  First the unconstrained pick is tried; if the grammar rejects it the token slice is *reset* -
+    every id paired again with its own logit - masked, and sampled again (with a second draw). *)
+Definition mask (rej : Z -> bool) (ts : list tok) : list tok :=
+  map (fun t => (tid t, if rej (tid t) then ninf else tv t)) ts.
+
+(** the same on the logit vector: position i (id s+i) keeps its own logit or becomes -Inf *)
+Fixpoint mask_logits (rej : Z -> bool) (s : Z) (l : list sf) : list sf :=
+  match l with [] => [] | v :: r => (if rej s then ninf else v) :: mask_logits rej (s + 1) r end.
+
+Definition first_pick_rejected (rej : Z -> bool) (t : tok) : bool := rej (tid t) || is_ninf (tv t).
+
+Definition Sample_grammar (pr : params) (rej : Z -> bool) (logits : list sf) (r1 r2 : sf) : res :=
+  match logits with
+  | [] => ErrEmpty
+  | _ =>
+      let ts := enumerate 0 logits in
+      match sample pr ts r1 with
+      | Tok t => if first_pick_rejected rej t then sample pr (mask rej ts) r2 else Tok t
+      | e => e
+      end
+  end.
+
+(** draws consumed by one grammar-constrained call: none (greedy), one (first pick accepted or error), two *)
+Definition grammar_draws (pr : params) (rej : Z -> bool) (logits : list sf) (r1 : sf) : Z :=
+  match logits with
+  | [] => 0
+  | _ => if feq (p_temp pr) fzero then 0
+         else match sample pr (enumerate 0 logits) r1 with
+              | Tok t => if first_pick_rejected rej t then 2 else 1
+              | _ => 1
+              end
+  end.
+
 (** does this call consume a draw of the generator?  (one per call unless greedy or empty) *)
 Definition draws (pr : params) (logits : list sf) : bool :=
   match logits with [] => false | _ => negb (feq (p_temp pr) fzero) end.
